@@ -9672,6 +9672,7 @@ def _write_node(node, xml_tree=None, viewport_transform=None):
             restate(xml_tree, key, value)
 
     if isinstance(node, SVG):
+        outermost = xml_tree is None
         if xml_tree is None:
             xml_tree = subxml(xml_tree, SVG_NAME_TAG)
             xml_tree.set(SVG_ATTR_VERSION, SVG_VALUE_VERSION)
@@ -9692,7 +9693,31 @@ def _write_node(node, xml_tree=None, viewport_transform=None):
         )
         vt = None
         try:
-            vt = node.viewbox_transform
+            try:
+                vt = node.viewbox_transform
+            except ValueError:
+                if not outermost:
+                    raise
+                # The document states its size with units or as a percentage (it was built, not rendered):
+                # resolved the way a reader of the written text will, at the default ppi and against the viewBox.
+                vb = node.viewbox
+                width = Length(node.width).value(
+                    ppi=DEFAULT_PPI, relative_length=vb.width
+                )
+                height = Length(node.height).value(
+                    ppi=DEFAULT_PPI, relative_length=vb.height
+                )
+                vt = Viewbox.viewbox_transform(
+                    Length(node.x).value(ppi=DEFAULT_PPI, relative_length=width),
+                    Length(node.y).value(ppi=DEFAULT_PPI, relative_length=height),
+                    width,
+                    height,
+                    vb.x,
+                    vb.y,
+                    vb.width,
+                    vb.height,
+                    vb.preserve_aspect_ratio,
+                )
             if vt:
                 m = Matrix(vt)
                 m.inverse()
